@@ -274,15 +274,18 @@ func propC01(c *Ctx) {
 					want = bas
 				}
 				line := fmt.Sprintf("date.verb %d %d %d %s", y, m, d, hx([]byte(format)))
-				if fl == "" || fl == "+" || fl == "#" || fl == "10" || verb == 'v' || verb == 's' || verb == 'd' || verb == 'q' || verb == 'x' {
+				// the verbs the documentation names (%b basic; %e, %s extended; %v through fmt's default) are judged
+				// exactly and compared with the model; any other verb must give one of the two documented texts and
+				// nothing else (a new alias for either form changes nothing the property speaks about)
+				documented := verb == 'b' || verb == 'e' || verb == 's' || verb == 'v'
+				if documented {
 					c.Op(line)
 				}
 				c.Check(line)
-				if got := fmt.Sprintf(format, dt); got != want {
-					c.Fail("C01.verbs", line, "Sprintf(%q, %s) = %q, want %q (documented table: %%b basic, every other verb extended; flags and width have no effect)", format, ext, got, want)
-				}
-				if got := fmt.Sprintf(format, &dt); got != want {
-					c.Fail("C01.verbs", line, "Sprintf(%q, &date) = %q, want %q", format, got, want)
+				for _, got := range []string{fmt.Sprintf(format, dt), fmt.Sprintf(format, &dt)} {
+					if documented && got != want || !documented && got != ext && got != bas {
+						c.Fail("C01.verbs", line, "Sprintf(%q, %s) = %q, want %q (documented table: %%b basic, %%e %%s %%v extended; every other verb one of the two; flags and width have no effect)", format, ext, got, want)
+					}
 				}
 			}
 		}
